@@ -4,3 +4,8 @@ chk("C15",
     "Trusted: harness JSON projection and pixel patterns; Pixel.tla transcription of sw-composite (self-checked against the real functions); bounds: sizes 0..2, corners -1..2, offsets -2..2 exhaustive.",
     "TLA+ spec (Surface.tla) + TLC: I=>P refinement, TLC-generated scenarios replayed on the code, TLC trace validation",
     "DESIGN.md 7 C15")
+chk("C01",
+    "TLC enumerates every triangle (and quadrilateral on a coarser grid) on a small quarter-pixel grid in variants that push it partly/wholly off each side of the surface, samples multi-loop polygons by simulation, the harness executes each on the real fill()/push_clip(), and TLC validates every recorded pixel against the exact 4x4 supersampling specification (Coverage.tla: rational edge crossings, round to nearest with ties two-valued, winding rule per cell, allowed alpha set 16k/16k-1). Exhaustive inside the bounds, seeded random polygons (up to 7 vertices, 3 loops, edges 3000 px tall) beyond.",
+    "Trusted: harness path construction/pixel projection. Lattice inputs make every f32 step exact. Rounding ties and the 16.16 slope truncation of edges taller than 22 px are accepted either way (DESIGN.md C01).",
+    "TLA+ spec (Coverage.tla) + TLC-generated polygons replayed on the code + TLC trace validation",
+    "DESIGN.md 7 C01")
